@@ -255,6 +255,8 @@ TOKEN_SPECS = [
     'grammar k;\nID = /[a-z]+/;\nstart = ID "a" "ab" "abc" "b" "ba" "if" "in" "int";\n',
     'grammar m;\nHEX = /0x[0-9a-f]+/;\nNUM = /[0-9]+/;\nFLT = /[0-9]+\\.[0-9]+/;\nID = $ID;\nstart = HEX NUM FLT ID "0" "00";\n',
     'grammar o;\nAA = /ab|cd/;\nBB = /ab/;\nCC = /cd/;\nDD = "ab";\nstart = AA BB CC DD;\n',
+    # several definitions that are rejected when the scanner is built: the diagnostics must come in one order
+    'grammar b;\nAA = /a{3,1}/;\nBB = /[z-a]/;\nCC = /c{2,1}/;\nDD = /[9-0]/;\nEE = /e{5,2}/;\nFF = /[y-b]/;\nGG = /g{4,3}/;\nHH = /[x-c]/;\nstart = AA BB CC DD EE FF GG HH;\n',
     # names that differ only in letter case: the order must still be a total one
     'grammar c;\nID = /[a-z]+/;\nNUM = /[0-9]+/;\nstart = ID NUM "e" "E" "ab" "AB" "Ab" "aB" "if" "IF" "If" "iF" "x" "X";\n',
 ]
